@@ -1,6 +1,7 @@
 #!/usr/bin/env python3
 """tools/gen_baseline.py [repo] — refresh the `adts` section of rules/baseline_fns.json from the pinned tree (default /repo):
   adts : path -> {kind, variants: [[name, [[field, type], ..]], ..]}   (configurations A and B merged)
+  callers_by_cfg : per configuration, function key -> pinned callers (config B enables `tracing`, whose log calls must not count in A)
   fp   : function key -> {file, line, callees}   (tie-breaker when several functions of one signature were renamed together)
 used by the engine to recognise renamed private types / fields / variants (core._normalise_names).  The `fns` and `callers`
 sections (function key -> signature, key -> pinned callers) were produced the same way at pin time and are left untouched.
@@ -15,9 +16,21 @@ from rules.engine.extract import get_facts
 repo = sys.argv[1] if len(sys.argv) > 1 else '/repo'
 adts = {}
 fp = {}
+callers_by_cfg = {}
+from rules.engine.core import _local_callees
 for cfg in ('A', 'B'):
     fd, _ = get_facts(repo, cfg)
     P = Program(fd, cfg)
+    keys = {f.key for f in P.fn_list if f.kind not in ('closure', 'promoted')}
+    cc = {}
+    for f in P.fn_list:
+        if f.kind == 'promoted':
+            continue
+        owner = f.key if f.kind != 'closure' else (f.root or f.parent)
+        for c in _local_callees(P, f):
+            if c in keys and owner and c != owner:
+                cc.setdefault(c, set()).add(owner)
+    callers_by_cfg[cfg] = {k: sorted(v) for k, v in sorted(cc.items())}
     for f in P.fn_list:
         if f.kind in ('closure', 'promoted') or f.key in fp:
             continue
@@ -31,6 +44,7 @@ for cfg in ('A', 'B'):
 p = os.path.join(V, 'rules', 'baseline_fns.json')
 base = json.load(open(p))
 base['adts'] = dict(sorted(adts.items()))
+base['callers_by_cfg'] = callers_by_cfg
 base['fp'] = {k: v for k, v in sorted(fp.items()) if k in base['fns']}
 json.dump(base, open(p, 'w'), indent=0, sort_keys=True)
 print('wrote', p, len(base['fns']), 'fns', len(base['callers']), 'caller entries', len(adts), 'adts')
